@@ -28,7 +28,7 @@ def c04_bytes_map_nonempty(env):
 
 
 def canonical_nans(env):
-    """JSON has one NaN: only the canonical quiet NaN (0x7ff8000000000000) is in the claim"""
+    """JSON has one NaN: only the canonical quiet NaN (0x7ff8000000000000) is in the claim."""
     import struct
 
     for name, v in list(env.vars.items()):
@@ -175,6 +175,9 @@ def units(tier):
                 continue
             u.append(("roundtrip[%s | %s]" % (name, casing), h_roundtrip, {"cat": c, "casing": casing}))
     u.append(("time-fields[Timestamp, Duration x singular/repeated/optional/oneof]", h_time_fields, {}))
+    from .c19 import h_two_classes
+
+    u.append(("two-classes-with-similar-field-names", h_two_classes, {}))
     return u
 
 
